@@ -225,6 +225,28 @@ func (m *LockModel) lockCall(f *Func, call *ast.CallExpr) (k lockKind, release b
 	if k, r, ok := m.primitiveLockCall(f, call); ok {
 		return k, r, true
 	}
+	// a local closure that releases/acquires: `endTxn := func() { ... rm.EndTxn() ... }; endTxn()`
+	if id, isId := call.Fun.(*ast.Ident); isId {
+		if v, isVar := f.ObjOf(id).(*types.Var); isVar && v.Pkg() != nil && v.Parent() != v.Pkg().Scope() {
+			if rhs, _, okDef := f.definedBy(f.Decl.Body, v); okDef {
+				if lit, isLit := ast.Unparen(rhs).(*ast.FuncLit); isLit {
+					var kk lockKind
+					var rel, found bool
+					ast.Inspect(lit.Body, func(y ast.Node) bool {
+						if c2, isCall := y.(*ast.CallExpr); isCall && c2 != call {
+							if k2, r2, ok2 := m.lockCall(f, c2); ok2 {
+								kk, rel, found = k2, r2, true
+							}
+						}
+						return true
+					})
+					if found {
+						return kk, rel, true
+					}
+				}
+			}
+		}
+	}
 	callee := f.Callee(call)
 	if callee == nil {
 		return
@@ -369,6 +391,21 @@ func (b *Brackets) Unpaired() []acqSite {
 			case *ast.DeferStmt:
 				if kk, rel, ok := b.m.lockCall(b.g.f, x.Call); ok && rel && kk == a.kind {
 					return Cut
+				}
+				// defer func() { ...release... }()
+				if lit, isLit := x.Call.Fun.(*ast.FuncLit); isLit {
+					released := false
+					ast.Inspect(lit.Body, func(y ast.Node) bool {
+						if call, isCall := y.(*ast.CallExpr); isCall {
+							if kk, rel, ok := b.m.lockCall(b.g.f, call); ok && rel && kk == a.kind {
+								released = true
+							}
+						}
+						return true
+					})
+					if released {
+						return Cut
+					}
 				}
 			case *ast.ExprStmt:
 				if call, ok := x.X.(*ast.CallExpr); ok {
